@@ -4,6 +4,7 @@ import (
 	"bytes"
 	"fmt"
 	"io"
+	"os"
 	"regexp"
 	"strings"
 	"testing/iotest"
@@ -174,6 +175,33 @@ func c09Exec(cs fw.Case) *fw.Fail {
 		}
 		if f := try("data with EOF", iotest.DataErrReader(bytes.NewReader(dump))); f != nil {
 			return f
+		}
+		// real files: a pipe (not seekable, short reads) and a regular file the caller has positioned behind a header
+		if len(dump) <= 60000 {
+			if pr, pw, perr := os.Pipe(); perr == nil {
+				go func() { pw.Write(dump); pw.Close() }()
+				f := try("*os.File that is a pipe", pr)
+				pr.Close()
+				if f != nil {
+					return f
+				}
+			}
+			if tmp, terr := os.CreateTemp(fw.WorkDir(), "c09-*.bcb"); terr == nil {
+				tmp.Write([]byte("HEADER\x00\x01"))
+				tmp.Write(dump)
+				tmp.Write([]byte("TRAILER"))
+				tmp.Seek(8, io.SeekStart)
+				f := try("*os.File positioned behind an 8-byte header, with a trailer", tmp)
+				pos, _ := tmp.Seek(0, io.SeekCurrent)
+				tmp.Close()
+				os.Remove(tmp.Name())
+				if f != nil {
+					return f
+				}
+				if pos < 8+int64(len(dump)) {
+					return fw.Failf("LoadProg consumes the dump from a positioned file", "file offset %d after the load, the dump ends at %d", pos, 8+len(dump))
+				}
+			}
 		}
 		// the dump is a part of a larger stream and the reader stands at its first byte: behind a header, behind another
 		// stored dump (seekable readers: a loader has no business moving them anywhere else)
